@@ -203,6 +203,11 @@ pub fn run(scn: &Scenario, record: bool) -> RunResult {
             sr_dropped = true;
             Api { w: &w, ep: 0, task: "env" }.ev("drop_sr", 0, 0, "ok", json!({}));
             let srh = reg.sr.take();
+            if let Some(x) = srh.as_ref() {
+                if let Ok(v) = serde_json::from_str::<serde_json::Value>(&x.verif_snapshot()) {
+                    w.lock().unwrap().log(json!({"t": "stats", "ep": "c", "conn_done": false, "at": "drop_sr", "s": v}));
+                }
+            }
             guarded_drop(&w, "drop_sr", move || drop(srh));
         }
 
@@ -250,6 +255,19 @@ pub fn run(scn: &Scenario, record: bool) -> RunResult {
                 ([g.dirs[0].wbudget.is_some(), g.dirs[1].wbudget.is_some()], [g.dirs[0].inflight.len(), g.dirs[1].inflight.len()])
             };
             let _ = inflight;
+            // guarded statistics snapshot (hook H2) at quiescence
+            for s in slots.iter() {
+                if s.task.is_conn() {
+                    let ep = s.task.ep();
+                    let snap = if s.done { if ep == 0 { reg.sr.as_ref().map(|x| x.verif_snapshot()) } else { None } } else { s.task.stats() };
+                    if let Some(js) = snap {
+                        match serde_json::from_str::<serde_json::Value>(&js) {
+                            Ok(v) => w.lock().unwrap().log(json!({"t": "stats", "ep": EP[ep], "conn_done": s.done, "s": v})),
+                            Err(e) => w.lock().unwrap().log(json!({"t": "stats_err", "ep": EP[ep], "err": e.to_string(), "raw": js})),
+                        }
+                    }
+                }
+            }
             w.lock().unwrap().log(json!({"t": "q", "n": nq, "out": outs, "conn": conn, "wblocked": {"c": wb[0], "s": wb[1]}, "sr_alive": reg.sr.is_some()}));
             // things that happen at quiescence
             let mut progressed = false;
@@ -413,7 +431,12 @@ pub fn run(scn: &Scenario, record: bool) -> RunResult {
                             Ok(g) => g,
                             Err(p) => p.into_inner(),
                         };
-                        g.log(json!({"t": "panic", "ep": EP[ep], "task": name, "msg": msg}));
+                        // h2's Store::drop debug assertion (only compiled with feature `unstable`): a leak oracle, not a crash of the endpoint
+                        if msg.contains("self.slab.is_empty()") {
+                            g.log(json!({"t": "drop_panic", "at": name, "msg": msg}));
+                        } else {
+                            g.log(json!({"t": "panic", "ep": EP[ep], "task": name, "msg": msg}));
+                        }
                         slots[i].done = true;
                     }
                 }
@@ -562,6 +585,9 @@ fn do_env(op: &EnvOp, w: &Shared, slots: &mut Vec<Slot>, reg: &mut Registry, spa
         EnvOp::DropSr => {
             if let Some(srh) = reg.sr.take() {
                 Api { w, ep: 0, task: "env" }.ev("drop_sr", 0, 0, "ok", json!({}));
+                if let Ok(v) = serde_json::from_str::<serde_json::Value>(&srh.verif_snapshot()) {
+                    w.lock().unwrap().log(json!({"t": "stats", "ep": "c", "conn_done": false, "at": "drop_sr", "s": v}));
+                }
                 guarded_drop(w, "drop_sr", move || drop(srh));
             }
         }
